@@ -25,8 +25,34 @@ from .. import files_fs as F
 PROPERTY = "C19"
 DRIVER = "drv_files"
 THEOREMS = [
+    "C19.loaded_once",
+    "C19.loaded_sound",
+    "C19.ids_right",
+    "C19.loaded_complete_counterexample",
+    "C19.loaded_complete_partial",
+    "C19.exact_partial",
+    "C19.loaded_complete_fixed",
+    "C19.exact_fixed",
+    "C19.error_loud",
+    "C19.loads_when_loadable",
+    "C19.dup_id",
+    "C19.dup_id_expected",
+    "C19.map_keys",
+    "C19.split",
+    "C19.split_legacy",
+    "C19.checker_expected",
+    "C19.checker_exact",
 ]
-PARTIAL = {}
+PARTIAL = {
+    "C19.loaded_complete_partial": "full statement C19.loaded_complete_statement is refuted by C19.loaded_complete_counterexample "
+    "(finding C19-F13): needs the hypothesis NoInitPrefixed (no reached file name starts with '__init__' other than the module "
+    "'__init__' itself), or Cfg.initDot = true, i.e. the repaired look-ahead (?!\\.\\#|__init__\\.), for which "
+    "C19.loaded_complete_fixed / C19.exact_fixed are the full-strength theorems (the harness selects initDot from the behaviour of "
+    "the regexes of the tree under test)",
+    "C19.dup_id_expected": "same side condition as C19.exact_partial (C19.dup_id, stated over the loaded files, is full)",
+    "C19.exact_partial": "same hypothesis NoInitPrefixed as C19.loaded_complete_partial (the 'nothing else' and 'once' halves, "
+    "C19.loaded_sound and C19.loaded_once, are full)",
+}
 TRUSTED = [
     "the abstract filesystem handed to the model is read back from the real scratch tree by harness/files_fs.py "
     "(os.scandir, os.path.realpath, os.path.exists); os.walk order, realpath and byte-code loading are the platform's",
@@ -72,8 +98,8 @@ def stream_match(ctx, n):
     names = [gen_name(rng) for _ in range(n)]
     ops = []
     for nm in names:
-        ops.append({"op": "files.match", "name": nm, "sourceless": True})
-        ops.append({"op": "files.match", "name": nm, "sourceless": False})
+        ops.append({"op": "files.match", "name": nm, "sourceless": True, "initDot": F.INIT_DOT})
+        ops.append({"op": "files.match", "name": nm, "sourceless": False, "initDot": F.INIT_DOT})
     ans = ctx.drv.ask(ops)
     for i, nm in enumerate(names):
         for k, (key, sl) in enumerate((("sourceless", True), ("source", False))):
@@ -179,8 +205,45 @@ def join_locations(rng, sep, paths):
     return j.join(paths)
 
 
+def plan_features(plan):
+    locs = plan["locations"] or []
+    feats = []
+    if any(not l["dir"] for l in plan["links"]):
+        feats.append("file symlink")
+    if any(l["dir"] and l["path"].startswith("alias") for l in plan["links"]):
+        feats.append("symlinked directory available as location")
+    if any(l["dir"] and not l["path"].startswith("alias") for l in plan["links"]):
+        feats.append("symlinked sub-directory inside a tree")
+    if any(a != b and (a.startswith(b + "/") or b.startswith(a + "/")) for a in locs for b in locs):
+        feats.append("location nested in another location")
+    if len(set(locs)) < len(locs):
+        feats.append("same location listed twice")
+    if any(l.startswith("alias") for l in locs):
+        feats.append("location reached through a symlink")
+    if "missing_dir" in locs:
+        feats.append("missing location")
+    if any("/__pycache__/" in f["path"] for f in plan["files"]):
+        feats.append("__pycache__ entries")
+    if any(f["path"].endswith(".pyo") for f in plan["files"]):
+        feats.append(".pyo files")
+    if any(f["path"].endswith(".pyc") and "/__pycache__/" not in f["path"] for f in plan["files"]):
+        feats.append("legacy .pyc next to source")
+    if any(os.path.basename(f["path"]).startswith("__init__.") for f in plan["files"]):
+        feats.append("__init__ module")
+    if any(os.path.basename(f["path"]).startswith(".#") for f in plan["files"]):
+        feats.append("editor lock file")
+    if any(f["kind"] == "plain" for f in plan["files"]):
+        feats.append("non-python files")
+    if any(d.count("/") >= 1 and not d.endswith("__pycache__") and d != "scripts/versions" for d in plan["dirs"]):
+        feats.append("nested sub-directories")
+    return feats
+
+
 def run_tree(ctx, plan, settings, pending):
     """settings: list of (sourceless, recursive, sep, joined-string-seed)"""
+    for ft in plan_features(plan):
+        ctx.hist("tree_features", ft)
+    ctx.hist("tree_files", min(len(plan["files"]), 20))
     with F.Scratch(plan) as sc:
         fs = sc.scan()
         script_dir = os.path.join(sc.root, "scripts")
@@ -197,7 +260,7 @@ def run_tree(ctx, plan, settings, pending):
             # the locations as the implementation resolved them
             locs = [sc.scan_location(p) for p in impl["resolved"]]
             split_op = {"op": "files.split", "sep": sep if vl is not None else None, "pathsep": os.pathsep, "s": vl}
-            base = {"fs": fs, "cfg": {"sourceless": sourceless, "recursive": recursive}, "locs": locs}
+            base = {"fs": fs, "cfg": {"sourceless": sourceless, "recursive": recursive, "initDot": F.INIT_DOT}, "locs": locs}
             names = {i: n["path"] for i, n in enumerate(sc.nodes)}
             pending.append((inp, impl, split_op, base, names, sc.root))
 
@@ -269,7 +332,7 @@ def flush(ctx, pending):
                 if not impl["dupWarn"]:
                     ctx.fail(inp, "walk: walk_revisions() gives %r, revision map has %r" % (impl["walk"], impl["keys"]),
                              impl=impl, tags=["walk"])
-            if len(ctx.samples) < 4 and impl["loaded"] and (impl["twice"] or impl["dupWarn"] or k % 7 == 0):
+            if len(ctx.samples) < 5 and len(names) >= 4 and impl["loaded"] and (impl["twice"] or impl["dupWarn"]):
                 ctx.sample({"settings": small, "files": sorted(names.values()),
                             "loaded": [[names.get(n), r] for n, r in impl["loaded"]],
                             "loaded_twice_warnings": [names.get(n) for n in impl["twice"]], "duplicate_id_warnings": impl["dupWarn"]})
@@ -313,12 +376,55 @@ def stream_trees(ctx, n, rng_name="trees"):
     flush(ctx, pending)
 
 
+FORMS = ["py", "pyc", "pyo", "cache", "cache2", "txt"]
+
+
+def form_plan(stem, forms, second_location):
+    """one directory `va` holding one module stem in the given forms, every form defining a different id"""
+    files = []
+    ids = {"py": "s1", "pyc": "c1", "pyo": "o1", "cache": "h1", "cache2": "g1"}
+    for f in forms:
+        if f == "py":
+            files.append({"path": "va/%s.py" % stem, "kind": "src", "content": {"rev": ids[f]}})
+        elif f in ("pyc", "pyo"):
+            files.append({"path": "va/%s.%s" % (stem, f), "kind": "pyc", "content": {"rev": ids[f]}})
+        elif f == "cache":
+            files.append({"path": "va/__pycache__/%s.%s.pyc" % (stem, F.TAG), "kind": "pyc", "content": {"rev": ids[f]}})
+        elif f == "cache2":
+            files.append({"path": "va/__pycache__/%s.%s.opt-1.pyc" % (stem, F.TAG), "kind": "pyc", "content": {"rev": ids[f]}})
+        else:
+            files.append({"path": "va/%s.txt" % (stem.split(".")[0] or "dot"), "kind": "plain", "content": None})
+    links = [{"path": "alias0", "target": "va", "dir": True}] if second_location else []
+    return {"dirs": ["scripts", "va"], "files": files, "links": links,
+            "locations": ["va", "alias0"] if second_location else ["va"]}
+
+
+def stream_forms(ctx):
+    """Exhaustive: every subset of the six forms of one module stem, under all four settings
+    (and, thorough tier, also reached a second time through a symlinked location)."""
+    stems = ["a1", "__init__", ".#a1", "x.y"] if ctx.thorough else ["a1", "__init__"]
+    pending = []
+    n = 0
+    for stem in stems:
+        for mask in range(1, 1 << len(FORMS)):
+            forms = [f for i, f in enumerate(FORMS) if mask >> i & 1]
+            for second in ((False, True) if ctx.thorough else (False,)):
+                plan = form_plan(stem, forms, second)
+                run_tree(ctx, plan, [(sl, rec, "os", 0) for sl in (False, True) for rec in (False, True)], pending)
+                n += 4
+        flush(ctx, pending)
+    ctx.extra["exhaustive_domain"] = "forms lattice: stems %s x all non-empty subsets of %s x (sourceless, recursive) = %d cases" % (stems, FORMS, n)
+    ctx.exhaustive = True
+
+
 def run(ctx):
+    ctx.extra["regex_lookahead"] = "(?!\\.\\#|__init__\\.) [repaired]" if F.INIT_DOT else "(?!\\.\\#|__init__) [pinned: finding C19-F13 applies]"
     if F.PYO_LOADABLE:
         ctx.note("this interpreter can load .pyo files; they are modelled with their real content")
     stream_match(ctx, 6000 if ctx.thorough else 1500)
     stream_split(ctx, 6000 if ctx.thorough else 1200)
-    stream_trees(ctx, 3000 if ctx.thorough else 220)
+    stream_forms(ctx)
+    stream_trees(ctx, 9000 if ctx.thorough else 220)
 
 
 def search(ctx):
